@@ -35,8 +35,21 @@ def tree_hash(extra=()):
     return sha("\n".join(h))
 
 
+import threading
+_build_locks = {}
+_build_locks_guard = threading.Lock()
+
+
 def build(name, source=None, flags=(), libs=("-ltbb", "-lboost_timer"), incfirst=(), std="c++14", opt="-O2"):
-    """Compile /verif/harness/<name>.cpp (or `source`) against the working tree. Returns binary path."""
+    """Compile /verif/harness/<name>.cpp (or `source`) against the working tree. Returns binary path.
+    Serialised per driver name (several units may ask for the same replay driver at once)."""
+    with _build_locks_guard:
+        lk = _build_locks.setdefault(name, threading.Lock())
+    with lk:
+        return _build(name, source, flags, libs, incfirst, std, opt)
+
+
+def _build(name, source, flags, libs, incfirst, std, opt):
     inc = gen_config()
     source = source or os.path.join(VERIF, "harness", name + ".cpp")
     key = sha(read(source) + tree_hash() + " ".join(flags) + " ".join(libs) + " ".join(incfirst) + std + opt)
@@ -45,6 +58,8 @@ def build(name, source=None, flags=(), libs=("-ltbb", "-lboost_timer"), incfirst
     if os.path.exists(out):
         return out
     for old in glob.glob(os.path.join(bdir, name + "-*")):
+        if ".tmp" in old:
+            continue
         try:
             os.remove(old)
         except OSError:
@@ -53,12 +68,13 @@ def build(name, source=None, flags=(), libs=("-ltbb", "-lboost_timer"), incfirst
     for d in incfirst:
         cmd += ["-I", d]
     cmd += ["-I", inc, "-I", os.path.join(REPO, "include"), "-I", os.path.join(VERIF, "contracts")]
-    cmd += list(flags) + [source, "-o", out + ".tmp"] + list(libs)
+    tmp = out + ".tmp%d" % os.getpid()
+    cmd += list(flags) + [source, "-o", tmp] + list(libs)
     p = subprocess.run(cmd, stdout=subprocess.PIPE, stderr=subprocess.STDOUT, text=True, errors="replace")
     write(os.path.join(WORK, "bin", name + ".build.log"), " ".join(cmd) + "\n" + p.stdout)
     if p.returncode != 0:
         raise Undecided("driver %s does not compile against the working tree: %s" % (name, p.stdout.strip()[-600:]))
-    os.replace(out + ".tmp", out)
+    os.replace(tmp, out)
     return out
 
 
